@@ -339,7 +339,7 @@ func (chain *BlockChain) fetchPeerList() error {
 	var peerInfoList PeerInfoList
 	for _, peer := range peerlist.GetPeers() {
 		//过滤掉自己和小于自己128高度的节点
-		if peer == nil || peer.Self || curheigt > peer.Header.Height+128 {
+		if peer == nil || peer.Self || peer.Header == nil || curheigt > peer.Header.Height+128 {
 			continue
 		}
 		var peerInfo PeerInfo
